@@ -110,6 +110,8 @@ impl<T> Block<T> {
     pub fn push(&self, value: T) -> Result<(), T> {
         // Try to increment the index.  If we've reached the end of the block, let the bucket know
         // so it can attach another block.
+        #[cfg(metrics_verif)]
+        metrics::verif::point("blk.push.claim");
         let index = self.write.fetch_add(1, Ordering::AcqRel);
         if index >= BLOCK_SIZE {
             return Err(value);
@@ -125,6 +127,8 @@ impl<T> Block<T> {
             self.slots.get_unchecked(index).assume_init_ref().get().write(value);
         }
 
+        #[cfg(metrics_verif)]
+        metrics::verif::point("blk.push.publish");
         // Scoot our read index forward.
         self.read.fetch_or(1 << index, Ordering::AcqRel);
 
@@ -199,6 +203,8 @@ impl<T> AtomicBucket<T> {
     /// Checks whether or not this bucket is empty.
     pub fn is_empty(&self) -> bool {
         let guard = &epoch_pin();
+        #[cfg(metrics_verif)]
+        metrics::verif::point("bkt.empty.load_tail");
         let tail = self.tail.load(Ordering::Acquire, guard);
         if tail.is_null() {
             return true;
@@ -207,6 +213,8 @@ impl<T> AtomicBucket<T> {
         // We have to check the next block of our tail in case the current tail is simply a fresh
         // block that has not been written to yet.
         let tail_block = unsafe { tail.deref() };
+        #[cfg(metrics_verif)]
+        metrics::verif::point("bkt.empty.len");
         tail_block.len() == 0 && tail_block.next_len(guard) == 0
     }
 
@@ -215,9 +223,13 @@ impl<T> AtomicBucket<T> {
         let mut original = value;
         let guard = &epoch_pin();
         loop {
+            #[cfg(metrics_verif)]
+            metrics::verif::point("bkt.push.load_tail");
             // Load the tail block, or install a new one.
             let mut tail = self.tail.load(Ordering::Acquire, guard);
             if tail.is_null() {
+                #[cfg(metrics_verif)]
+                metrics::verif::point("bkt.push.cas_first");
                 // No blocks at all yet.  We need to create one.
                 match self.tail.compare_exchange(
                     Shared::null(),
@@ -241,6 +253,8 @@ impl<T> AtomicBucket<T> {
                 Ok(_) => return,
                 // The block was full, so we've been given the value back and we need to install a new block.
                 Err(value) => {
+                    #[cfg(metrics_verif)]
+                    metrics::verif::point("bkt.push.cas_new");
                     match self.tail.compare_exchange(
                         tail,
                         Owned::new(Block::new()),
@@ -252,6 +266,8 @@ impl<T> AtomicBucket<T> {
                         // the nextious block.
                         Ok(ptr) => {
                             let new_tail = unsafe { ptr.deref() };
+                            #[cfg(metrics_verif)]
+                            metrics::verif::point("bkt.push.link");
                             new_tail.next.store(tail, Ordering::Release);
 
                             // Now push into our new block.
@@ -303,6 +319,8 @@ impl<T> AtomicBucket<T> {
 
         // While we have a valid block -- either `tail` or the next block as we keep reading -- we
         // load the data from each block and process it by calling `f`.
+        #[cfg(metrics_verif)]
+        metrics::verif::point("bkt.data.load_tail");
         let mut block_ptr = self.tail.load(Ordering::Acquire, guard);
         while !block_ptr.is_null() {
             let block = unsafe { block_ptr.deref() };
@@ -310,14 +328,22 @@ impl<T> AtomicBucket<T> {
             // We wait for the block to be quiesced to ensure we get any in-flight writes, and
             // snoozing specifically yields the reading thread to ensure things are given a
             // chance to complete.
+            #[cfg(metrics_verif)]
+            metrics::verif::point("bkt.data.quiesced");
             while !block.is_quiesced() {
+                #[cfg(metrics_verif)]
+                metrics::verif::point("spin:bkt.data.wait");
                 backoff.snooze();
             }
 
+            #[cfg(metrics_verif)]
+            metrics::verif::point("bkt.data.read");
             // Read the data out of the block.
             let data = block.data();
             f(data);
 
+            #[cfg(metrics_verif)]
+            metrics::verif::point("bkt.data.next");
             // Load the next block.
             block_ptr = block.next.load(Ordering::Acquire, guard);
         }
@@ -358,6 +384,8 @@ impl<T> AtomicBucket<T> {
         // still be in process of writing to the tail node, or reading the data, but new callers
         // will see it as empty until another write proceeds.
         let guard = &epoch_pin();
+        #[cfg(metrics_verif)]
+        metrics::verif::point("bkt.clear.load_tail");
         let mut block_ptr = self.tail.load(Ordering::Acquire, guard);
         if !block_ptr.is_null()
             && self
@@ -382,14 +410,22 @@ impl<T> AtomicBucket<T> {
                 // We wait for the block to be quiesced to ensure we get any in-flight writes, and
                 // snoozing specifically yields the reading thread to ensure things are given a
                 // chance to complete.
+                #[cfg(metrics_verif)]
+                metrics::verif::point("bkt.clear.quiesced");
                 while !block.is_quiesced() {
+                    #[cfg(metrics_verif)]
+                    metrics::verif::point("spin:bkt.clear.wait");
                     backoff.snooze();
                 }
 
+                #[cfg(metrics_verif)]
+                metrics::verif::point("bkt.clear.read");
                 // Read the data out of the block.
                 let data = block.data();
                 f(data);
 
+                #[cfg(metrics_verif)]
+                metrics::verif::point("bkt.clear.next");
                 // Load the next block and take the shared reference to the current.
                 let old_block_ptr =
                     mem::replace(&mut block_ptr, block.next.load(Ordering::Acquire, guard));
